@@ -657,7 +657,7 @@ func instrumentFile(fset *token.FileSet, fc *fileCtx, rep *Report, info *types.I
 			}
 			if isPkgIdent(x.X, "runtime") {
 				switch x.Sel.Name {
-				case "Gosched":
+				case "Gosched", "GOMAXPROCS", "NumCPU":
 					o := fc.off(fset, x.X.Pos())
 					fc.replace(o, len(x.X.(*ast.Ident).Name), rtName)
 				case "LockOSThread", "UnlockOSThread", "Goexit":
@@ -684,6 +684,11 @@ func instrumentFile(fset *token.FileSet, fc *fileCtx, rep *Report, info *types.I
 	tail := fmt.Sprintf("\nvar _ = %s.Yield\n", rtName)
 	if timeLocal != "" && timeLocal != "_" && timeLocal != "." {
 		tail += fmt.Sprintf("var _ = %s.Nanosecond\n", timeLocal)
+	}
+	for name, path := range local {
+		if path == "runtime" && name != "_" && name != "." {
+			tail += fmt.Sprintf("var _ = %s.Version\n", name)
+		}
 	}
 	fc.insert(len(fc.src), tail)
 	return nil
